@@ -27,6 +27,62 @@ CHECKS = [
           "atomicity; fault model is process crash, not power loss.",
           "deterministic simulation: seeded scheduler + crash/torn-write/errno injection at file-system seams, reference-model oracle",
           "DESIGN.md section 2 (C24)"),
+    check("C23", "cache_hist", "exploration",
+          "Seeded histories of set-model / run (cache on|off, via CLI main or Parameters) / wipe-cache operations on a sandboxed "
+          "file system; every run is compared with the uncached reference run, every file-system event is audited "
+          "(sys.addaudithook) for confinement and for reuse of an entry produced from another text, and the pickled symbol "
+          "table is compared with the original by dump, aliasing structure, id-sets and queries.",
+          "Trusted: CPython's audit events cover every file open/rename/remove/mkdir; the temp dir is redirected into the sandbox.",
+          "deterministic simulation: seeded operation histories against a sandboxed file system with an audit log, reference model = uncached run",
+          "DESIGN.md section 2 (C23)"),
+    check("C22", "determinism", "exploration",
+          "Every corpus case (model incl. rejected ones, snippets variant, target) and aas_core_meta.v3 is executed in several "
+          "fresh interpreters that differ in PYTHONHASHSEED, heap layout, directory listing order (scandir seam), output-dir "
+          "location and history and position in the process; rc, stdout up to the output path, stderr and the hashes of all "
+          "written files must agree.",
+          "Trusted: each child interpreter is a pure function of its spec (self-tested); only the listed nondeterminism sources are varied.",
+          "deterministic simulation: every nondeterminism source behind a seeded seam, differential comparison across seeded child interpreters",
+          "DESIGN.md section 2 (C22)"),
+    check("C25", "snippets", "exploration",
+          "Seeded directory trees (valid/invalid/unicode/newline/non-UTF-8 names, hidden entries, empty dirs, whitespace, invalid "
+          "UTF-8) on the sandboxed file system, listed in seeded orders; read_from_directory and main.execute are compared with a "
+          "dict computed from the tree spec.",
+          "Trusted: validity of a key is the repository's own IMPLEMENTATION_KEY_RE; cases on which the statement is silent (files "
+          "below hidden dirs, CR, BOM, exotic whitespace, symlinks) are not generated.",
+          "deterministic simulation: seeded file-system trees + seeded directory-listing order at the scandir seam, reference-model oracle",
+          "DESIGN.md section 2 (C25)"),
+    check("C26", "yieldflow", "exploration",
+          "Seeded structured flows are linearized by the real code and run as interleaved resumable state machines under seeded "
+          "condition-outcome tapes against a structured reference interpreter; histories must agree event by event, labels must "
+          "be consecutive and all targets must exist. Thorough tier also compiles the emitted C++ body with g++.",
+          "Trusted: the ~60-line interpreter of the subroutines models the emitted switch/fall-through/continue/return protocol "
+          "(validated against g++ in the thorough tier).",
+          "deterministic simulation: resumable machines stepped by a seeded scheduler and environment, refinement check against an executable reference model",
+          "DESIGN.md section 2 (C26)"),
+    check("C02", "iofault_c02", "fault_enumeration",
+          "I/O-fault slice only: every mkdir/open/write/close inside the output directory of a recorded run is failed with every "
+          "applicable errno (exhaustive single faults on small common models, seeded double/state faults, samples on the rest of "
+          "the corpus and aas_core_meta.v3); no exception may escape main.execute. Whether generators crash on meta-models outside "
+          "the corpus (the pure-input part of C02) is NOT decided.",
+          "Only faults at operations of <target>/main.py:execute inside the output directory; smoke tool and pure-input crashes are out of scope of this technique.",
+          "deterministic fault injection: exhaustive single-fault enumeration at the raw-file / os.mkdir seams of a recorded run",
+          "DESIGN.md section 3 (C02/C03)"),
+    check("C03", "iofault_c03", "fault_enumeration",
+          "I/O-fault slice only: under the same enumerated disk faults the run must keep rc == 0 iff stderr empty, rc 0 implies the "
+          "Code-generated line and an output tree identical to the fault-free run, rc != 0 implies a non-empty report whose first "
+          "bullet follows a headline ending in ':'; benign conditions (short writes, stale longer files) must end in rc 0. The "
+          "report-shape clause in general and 'no error is dropped' are NOT decided.",
+          "Only faults inside the output directory; the weak reading of the report-shape clause is judged (main.execute itself emits un-bulleted one-line messages).",
+          "deterministic fault injection: exhaustive single-fault enumeration at the raw-file / os.mkdir seams of a recorded run",
+          "DESIGN.md section 3 (C02/C03)"),
+    check("C10", "xmlstream", "exploration",
+          "XML-stream slice only: instances of generated+imported Python SDKs are written and read back whole and through from_stream "
+          "under seeded short reads; labelled mistyped documents must get the same verdict whole and chunked and only "
+          "DeserializationException; corrupted documents only DeserializationException/ParseError. JSON round trip as fault-free "
+          "baseline. Other SDK languages and meta-models outside the corpus are NOT decided.",
+          "Only the 23 corpus models for which the python target yields an importable SDK; ParseError accepted for not well-formed input.",
+          "deterministic simulation: caller-supplied stream with seeded short reads (chunk boundaries as the schedule), verdict-stability and round-trip oracles",
+          "DESIGN.md section 3 (C10)"),
 ]
 
 NA_COMMON = ("pure function of its input (no schedule, clock, stream, shared state or fault path); deciding it is input "
@@ -75,8 +131,22 @@ def main():
             "add_only": True,
         },
         "engines": [
+            {"name": "kernel", "path": "dsim/kernel.py", "serves_properties": ["C24", "C23", "C22", "C25", "C02", "C03"],
+             "kind_free_text": "simulation kernel: sandbox, seams (io.open/os.*/uuid/time/flock), baton-passed actors, crashes, audit hook, trace"},
             {"name": "cache_conc", "path": "engines/cache_conc.py", "serves_properties": ["C24"],
-             "kind_free_text": "deterministic simulation: concurrent simulated processes + crashes on the shared model cache"},
+             "kind_free_text": "concurrent simulated processes + crashes on the shared model cache"},
+            {"name": "cache_hist", "path": "engines/cache_hist.py", "serves_properties": ["C23"],
+             "kind_free_text": "histories of runs/edits with audit log against the uncached reference"},
+            {"name": "determinism", "path": "engines/determinism.py", "serves_properties": ["C22"],
+             "kind_free_text": "differential runs across seeded child interpreters"},
+            {"name": "snippets", "path": "engines/snippets.py", "serves_properties": ["C25"],
+             "kind_free_text": "seeded directory trees and listing orders"},
+            {"name": "yieldflow", "path": "engines/yieldflow.py", "serves_properties": ["C26"],
+             "kind_free_text": "resumable state machines vs structured reference interpreter"},
+            {"name": "iofault", "path": "engines/iofault.py", "serves_properties": ["C02", "C03"],
+             "kind_free_text": "exhaustive single-fault enumeration on the output tree"},
+            {"name": "xmlstream", "path": "engines/xmlstream.py", "serves_properties": ["C10"],
+             "kind_free_text": "generated Python SDK reading XML from a chunked stream"},
         ],
         "checks": CHECKS,
         "not_applicable": na,
